@@ -57,7 +57,7 @@ def search(all_=False):
         exprs.append(f"({b}) {op} ({a})")
     for op, a in itertools.product(UNOPS, OBJS):
         exprs.append(f"{op}({a})")
-    for a, i in itertools.product(["(1, 'a')", "'ab'", "[1]"], ["0", "1", "-1", "2", "-3", "'k'"]):
+    for a, i in itertools.product(["(1, 'a')", "'ab'", "[1]"], ["0", "1", "-1", "-2", "2", "-3", "'k'"]):
         exprs.append(f"{a}[{i}]")
     if not all_:
         exprs = [e for e in exprs if not _known(e)]
